@@ -3,6 +3,8 @@ Proofs/TMRun.lean — the three `read_input_stepwise` models against the referen
 of `Spec/TM.lean` (views).
 -/
 import AutomataVerif.Spec.TM
+import AutomataVerif.Proofs.TMTape
+import AutomataVerif.Proofs.QueueBFS
 import AutomataVerif.Proofs.Basic
 
 namespace AV.TM
